@@ -389,7 +389,7 @@ package websocket
 //@   assert at "if readBytes > s.maxMessageSize": [C06 type] (messageType$head == TypeNone ==> messageType == MessageType(f[0] & 15)) &&
 //@          (messageType$head != TypeNone ==> messageType == messageType$head)
 //@   // a frame that does not fit into the buffer, or a message above the limit, ends the read with an error
-//@   assert at "if err != nil || !continuation": [C15 fits] n == Frame.PayloadLength(f) && readBytes <= s.maxMessageSize
+//@   assert at "if err != nil || !continuation": [C15,C06 fits] n == Frame.PayloadLength(f) && readBytes <= s.maxMessageSize
 //@   ensures [in-buffer] 0 <= readBytes && readBytes <= len(b)
 //@   ensures [C15 too-big] readBytes > s.maxMessageSize ==> err != nil
 
@@ -415,5 +415,7 @@ package websocket
 //@   assert at "if readBytes > s.maxMessageSize": [C06 appended] readBytes == old(readBytes) + n &&
 //@          n == min(len(b) - old(readBytes), len(Frame.Payload(f))) &&
 //@          (forall k :: 0 <= k && k < n ==> b[old(readBytes) + k] == Frame.Payload(f)[k])
+//@   assert at "if readBytes > s.maxMessageSize": [C06 type-a] old(messageType) != TypeNone ==> messageType == old(messageType)
+//@   assert at "if readBytes > s.maxMessageSize": [C06 type-b] old(messageType) == TypeNone ==> messageType == MessageType(Frame.Opcode(f))
 //@   // a control frame between fragments changes nothing of the message being assembled
 //@   assert call (*Stream).asyncNextMessage: [C06 carried-on] arg1 == b && arg2 == readBytes && arg3 == continuation && arg4 == messageType && arg5 == callback
